@@ -1,7 +1,9 @@
 package main
 
 import (
+	"fmt"
 	"go/types"
+	"strings"
 	"golang.org/x/tools/go/ssa"
 )
 
@@ -16,6 +18,80 @@ func (e *fnEnc) stdlibModel(c *blockCtx, in ssa.Instruction, name string, args [
 		case SStr, SAStr:
 			return []Term{e.strCompare(a, b)}, true
 		}
+	case "path/filepath.Join", "path.Join":
+		// Join(a, b): an uninterpreted function of its two elements
+		if len(cc.Args) == 1 {
+			if n, ok := e.smallConstLen(cc.Args[0]); ok && n == 2 {
+				comp, cs := e.elemCompT(types.Typ[types.String])
+				ss := e.sortOf(types.Typ[types.String])
+				arr := sel(e.heapGet(c.st, comp, cs), slBase(args[0]), ArrayOf(SInt, ss))
+				a := sel(arr, slOff(args[0]), ss)
+				b := sel(arr, add(slOff(args[0]), intLit(1)), ss)
+				f := e.declareFun("joinPath", []Sort{ss, ss}, ss)
+				r := e.freshConst("join", ss)
+				e.assert(eq(r, app(ss, f, a, b)))
+				e.assert(e.rangeOf(r, types.Typ[types.String]))
+				return []Term{r}, true
+			}
+		}
+	case "strings.Contains", "strings.HasPrefix", "strings.HasSuffix":
+		if lit, ok := e.litBytes(args[1]); ok && args[0].Sort == SStr && len(lit) > 0 && len(lit) <= 16 {
+			x := args[0]
+			n := int64(len(lit))
+			matchAt := func(k Term) Term {
+				var cs []Term
+				for i, b := range lit {
+					cs = append(cs, eq(strAt(x, add(k, intLit(int64(i)))), intLit(int64(b))))
+				}
+				return and(cs...)
+			}
+			r := e.freshConst("strmatch", SBool)
+			switch name {
+			case "strings.HasPrefix":
+				e.assert(eq(r, and(le(intLit(n), strLen(x)), matchAt(intLit(0)))))
+			case "strings.HasSuffix":
+				e.assert(eq(r, and(le(intLit(n), strLen(x)), matchAt(sub(strLen(x), intLit(n))))))
+			default:
+				w := e.freshConst("strmatch.at", SInt)
+				e.assert(imp(r, and(le(intLit(0), w), le(add(w, intLit(n)), strLen(x)), matchAt(w))))
+				q := fmt.Sprintf("(forall ((k Int)) (! (=> (and (<= 0 k) (<= (+ k %d) %s)) (not %s)) :pattern ((byteAt %s k))))", n, strLen(x).S, matchAt(T(SInt, "k")).S, x.S)
+				e.assert(imp(not(r), T(SBool, q)))
+			}
+			return []Term{r}, true
+		}
+	case "strings.Count":
+		if lit, ok := e.litBytes(args[1]); ok && args[0].Sort == SStr && len(lit) == 1 {
+			x := args[0]
+			c := intLit(int64(lit[0]))
+			r := e.freshConst("strcount", SInt)
+			w := e.freshConst("strcount.at", SInt)
+			e.assert(and(le(intLit(0), r), le(r, strLen(x))))
+			// count == len  <=>  every byte is c
+			q := fmt.Sprintf("(forall ((k Int)) (! (=> (and (<= 0 k) (< k %s)) (= (byteAt %s k) %s)) :pattern ((byteAt %s k))))", strLen(x).S, x.S, c.S, x.S)
+			e.assert(imp(eq(r, strLen(x)), T(SBool, q)))
+			e.assert(imp(not(eq(r, strLen(x))), and(le(intLit(0), w), lt(w, strLen(x)), not(eq(strAt(x, w), c)))))
+			// count == 0 <=> no byte is c
+			q0 := fmt.Sprintf("(forall ((k Int)) (! (=> (and (<= 0 k) (< k %s)) (not (= (byteAt %s k) %s))) :pattern ((byteAt %s k))))", strLen(x).S, x.S, c.S, x.S)
+			e.assert(imp(eq(r, intLit(0)), T(SBool, q0)))
+			return []Term{r}, true
+		}
+	case "strings.ContainsRune":
+		if lit, ok := e.litBytes(args[0]); ok {
+			ascii := true
+			for _, b := range lit {
+				if b >= 0x80 {
+					ascii = false
+				}
+			}
+			if ascii {
+				rv := e.toInt(args[1], types.Typ[types.Int32])
+				var cs []Term
+				for _, b := range lit {
+					cs = append(cs, eq(rv, intLit(int64(b))))
+				}
+				return []Term{or(cs...)}, true
+			}
+		}
 	case "strings.Compare":
 		return []Term{e.strCompare(args[0], args[1])}, true
 	case "bytes.Compare":
@@ -28,6 +104,16 @@ func (e *fnEnc) stdlibModel(c *blockCtx, in ssa.Instruction, name string, args [
 			return app(SStr, "mk-str", sel(h, slBase(sl), ArrayOf(SInt, SInt)), slOff(sl), slLen(sl))
 		}
 		return []Term{e.strCompare(mk(args[0]), mk(args[1]))}, true
+	}
+	return nil, false
+}
+
+// litBytes recognises a string literal term.
+func (e *fnEnc) litBytes(t Term) ([]byte, bool) {
+	for v, lt := range e.strLits {
+		if lt.S == t.S && !strings.HasPrefix(v, "astr:") {
+			return []byte(v), true
+		}
 	}
 	return nil, false
 }
